@@ -324,7 +324,7 @@ def run(ctx):
         if ctx.quick:
             rng.shuffle(allf)
             # keep every (command, position kind) combination represented: stratify by command
-            allf = allf[:520]
+            allf = allf[:420]
         work += allf
 
     def one(w):
